@@ -47,14 +47,16 @@ Check(t, step) ==
   LET T == Traces[t] IN
   CASE step = "Deterministic" -> T.qasm_again /\ T.json_again
     [] step = "QasmParses" -> T.qasm.err = "" /\ ProgramWellFormed(T.qasm)
-    [] step = "QasmDenotes" -> T.qasm.err # "" \/ ~ProgramWellFormed(T.qasm) \/ QSem(T.qasm, T.src.nq) = Sem(T.src)
+    \* (wide circuits - many registers, to exercise multi-digit register names - are judged structurally only:
+    \*  their 2^n-element groups are out of reach, T.wide skips the semantic clauses)
+    [] step = "QasmDenotes" -> T.wide \/ T.qasm.err # "" \/ ~ProgramWellFormed(T.qasm) \/ QSem(T.qasm, T.src.nq) = Sem(T.src)
     [] step = "QasmImports" -> T.from_qasm.err = ""
     [] step = "QasmRoundTrip" -> T.from_qasm.err # "" \/ SameCircuit(T.src, T.from_qasm)
-    [] step = "QasmCompiledSame" -> T.from_qasm.err # "" \/ (AttrsAgree(T.from_qasm) /\ Sem(T.from_qasm) = Sem(T.src))
+    [] step = "QasmCompiledSame" -> T.from_qasm.err # "" \/ (AttrsAgree(T.from_qasm) /\ (T.wide \/ Sem(T.from_qasm) = Sem(T.src)))
     [] step = "JsonImports" -> T.from_json.err = ""
     [] step = "JsonRoundTrip" -> T.from_json.err # "" \/ SameCircuit(T.src, T.from_json)
     [] step = "JsonAttrs" -> T.from_json.err # "" \/ AttrsAgree(T.from_json)
-    [] step = "JsonCompiledSame" -> T.from_json.err # "" \/ Sem(T.from_json) = Sem(T.src)
+    [] step = "JsonCompiledSame" -> T.wide \/ T.from_json.err # "" \/ Sem(T.from_json) = Sem(T.src)
 
 CauseOf(t, step) ==
   LET T == Traces[t] IN
